@@ -943,7 +943,9 @@ def instruction(ctx):
 
         text = ctx.code[ctx.pos:idx].strip()
         if text:
-            ctx.skip_whitespace()
+            # Skip the blanks before the message. (Not ctx.skip_whitespace(): the
+            # message is the rest of the line even if it looks like a comment)
+            ctx.pos = ctx.code.index(text, ctx.pos)
             ctx_before_message = ctx.save()
             ctx.pos += len(text)
             operands = [types.QuotedString(ctx_before_message, ctx, "", text)]
